@@ -7,7 +7,7 @@ Import ListNotations.
 Open Scope N_scope.
 
 (* observed status: 0 = BAD, 1 = NO, 2 = OK *)
-Record case := mkCase { c_id : nat; c_in : bytes; c_obs : list (bytes * N) }.
+Record case := mkCase { c_id : N; c_in : bytes; c_obs : list (bytes * N) }.
 
 (* the harness' server has one user "user" / "pass" and no TLS configuration *)
 Definition login_ok (u p : bytes) : bool := bytes_eqb u (s2b "user"%string) && bytes_eqb p (s2b "pass"%string).
@@ -29,4 +29,4 @@ Definition case_ok (c : case) : bool :=
   end.
 
 Definition mismatches (cs : list case) : list nat :=
-  map c_id (filter (fun c => negb (case_ok c)) cs).
+  map (fun c => N.to_nat (c_id c)) (filter (fun c => negb (case_ok c)) cs).
